@@ -278,6 +278,10 @@ func init() {
 			n := rapid.IntRange(2, 8).Draw(rt, "histLen")
 			for i := 0; i < n; i++ {
 				in := gen.DrawParseInput(rt, u.c, u.d, mx, 3, 40)
+				if rapid.IntRange(0, 7).Draw(rt, "deep") == 0 {
+					// a very long input: the stack grows beyond its initial capacity
+					in.Toks = gen.DeepInput(rt, u.c)
+				}
 				st := HistStep{Toks: u.names(in.Toks), FailAt: -1}
 				if rapid.IntRange(0, 4).Draw(rt, "injectFail") == 0 {
 					st.FailAt = rapid.IntRange(0, 6).Draw(rt, "failAtH")
